@@ -2,10 +2,12 @@ package main
 
 import "fmt"
 
-// sameIdentity is the meaning of same(a, b) in contracts: a and b are one and the same map, pointer or slice. Where
+// sameIdentity is the meaning of same(a, b) in contracts: a and b are one and the same map or pointer; for slices:
+// the same slice value (offset, length, nil-ness and contents). Where
 // identity cannot be established it answers with an under-approximation (both nil), so same() must only be used in
 // positive positions.
-func (e *Engine) sameIdentity(a, b Val) string {
+func (e *Engine) sameIdentity(st *State, a, b Val) string {
+	e.sameState = st
 	switch x := a.(type) {
 	case OpaqueV:
 		if y, ok := b.(OpaqueV); ok {
@@ -23,8 +25,25 @@ func (e *Engine) sameIdentity(a, b Val) string {
 		}
 	case SliceV:
 		if y, ok := b.(SliceV); ok {
-			if x.Arr == y.Arr {
+			ax, ay := x.Arr, y.Arr
+			if ax != nil && ax.Orig != nil {
+				ax = ax.Orig // old(...) snapshot: identity is that of the array it was taken from
+			}
+			if ay != nil && ay.Orig != nil {
+				ay = ay.Orig
+			}
+			if ax == ay && ax == x.Arr && ay == y.Arr {
 				return and(eq(x.Off, y.Off), eq(x.Len, y.Len), eq(x.Nil, y.Nil))
+			}
+			// different symbolic arrays (a value merged over several paths, an old() snapshot): the same slice value,
+			// i.e. equal offset, length, nil-ness and contents
+			if x.Arr != nil && y.Arr != nil && len(x.Arr.Leaves) == len(y.Arr.Leaves) {
+				mx, my := e.arr(e.sameState, x.Arr), e.arr(e.sameState, y.Arr)
+				cs := []string{eq(x.Off, y.Off), eq(x.Len, y.Len), eq(x.Nil, y.Nil)}
+				for _, l := range x.Arr.Leaves {
+					cs = append(cs, eq(mx[l.key], my[l.key]))
+				}
+				return and(cs...)
 			}
 			return and(x.Nil, y.Nil)
 		}
